@@ -37,6 +37,9 @@ CONSTANTS Mode,      \* "honest" (C01) | "hostile" (C05)
                      \* "none" | "enc" (0x80 Encrypted: the reader must reject the packet - after consuming it) |
                      \* "zpre" (0x40 Compressed although WritePacket is called without compression: the body is
                      \* raw, the reader's gunzip fails or - statement silent - yields something else)
+          MaxFrames, \* hostile: frames per stream (1: one frame of every class; >1: streams over StreamFrames)
+          Threads,   \* hostile: reader goroutines that may make a ReadPacket call (the read loop migrates between
+                     \* OS threads / Ps between two calls; per-P state such as sync.Pool caches differs per thread)
           MaxStall,  \* empty reads the transport may inject per behaviour
           Chunking,  \* "all": every n in 1..min(want, avail) | "max": always min(want, avail)
           Dev,       \* see above
@@ -55,8 +58,10 @@ VARIABLES sent,     \* frames handed to the writer, in order (ghost: what was wr
           stalls,   \* empty reads injected so far
           devs,     \* deviations taken so far (ghost)
           outs,     \* outcomes so far: "Packet" | "Error" | "Reply" | "Eof"
+          aux,      \* [thr |-> reader thread of the current ReadPacket call,
+                    \*  retain |-> requests the dispatcher has registered and not yet released]
           hist      \* history of transport decisions (only when Emit)
-vars == <<sent, wire, open, pos, rd, decoded, alloc, stalls, devs, outs, hist>>
+vars == <<sent, wire, open, pos, rd, decoded, alloc, stalls, devs, outs, aux, hist>>
 
 Min(a, b) == IF a < b THEN a ELSE b
 Bound == 6          \* C05: 6 * MaxPacketBodySize (+ 1 MiB constant slack, see FramingTrace)
@@ -104,7 +109,7 @@ HonestPkts == { p \in      [k : {"HB"}, z : BOOLEAN, len : {0}, c : {"none"}, fl
 
 Kinds == {"HB", "CMD", "RESP", "HS", "TOPEN", "PAY", "UNK"}
 F(k, z, e, hdr, sc, av, gz, pay) ==
-  [k |-> k, z |-> z, e |-> e, uz |-> z, fl |-> "none", len |-> 0, c |-> "none", hdr |-> hdr, sc |-> sc, nb |-> IF sc = "0" THEN 0 ELSE 2,
+  [k |-> k, z |-> z, e |-> e, uz |-> z, fl |-> "none", len |-> 0, c |-> "none", sub |-> "any", hdr |-> hdr, sc |-> sc, nb |-> IF sc = "0" THEN 0 ELSE 2,
    av |-> av, gz |-> gz, pay |-> pay]
 NonHB == Kinds \ {"HB"}
 \* content of a complete body: (gzip class, payload class) pairs that make sense for a size class
@@ -120,6 +125,15 @@ HostileFrames ==
   \cup {F(k, z, e, 4, sc, av, "na", "bad") : k \in NonHB, z \in BOOLEAN, e \in BOOLEAN, sc \in {"S", "MAX"}, av \in 0..1}     \* truncated body
   \cup UNION {{F(k, z, e, 4, sc, 2, c[1], c[2]) : c \in Contents(z, sc)} : k \in NonHB, z \in BOOLEAN, e \in BOOLEAN, sc \in {"S", "MAX"}}
 
+\* streams (MaxFrames > 1): complete small frames whose body length is "tiny" (tens of bytes) or "mid"
+\* (2-4 KiB: the same buffer-pool bucket as tiny, but longer than any tiny buffer), and heartbeats; what one
+\* call leaves behind (pooled buffers, locks, registered requests) meets the next call - on any thread
+StreamContents(z) == IF z THEN {<<"ok", "good">>, <<"corrupt", "bad">>} ELSE {<<"na", "good">>, <<"na", "bad">>}
+StreamFrames ==
+       {F("HB", z, FALSE, 0, "0", 0, "na", "empty") : z \in BOOLEAN}
+  \cup UNION {{[F(k, z, e, 4, "S", 2, c[1], c[2]) EXCEPT !.sub = sb] : c \in StreamContents(z)} :
+                k \in {"CMD", "HS", "PAY"}, z \in BOOLEAN, e \in BOOLEAN, sb \in {"tiny", "mid"}}
+
 Encode(fr, id) == <<[f |-> "T", id |-> id, j |-> 0]>>
                   \o [j \in 1..fr.hdr |-> [f |-> "L", id |-> id, j |-> j]]
                   \o [j \in 1..fr.av  |-> [f |-> "B", id |-> id, j |-> j]]
@@ -130,6 +144,7 @@ Idle == [ph |-> "Type", id |-> 0, got |-> 0, need |-> 0, bad |-> FALSE, start |-
 
 Init == /\ sent = <<>> /\ wire = <<>> /\ open = TRUE /\ pos = 0 /\ rd = Idle
         /\ decoded = <<>> /\ alloc = 0 /\ stalls = 0 /\ devs = {} /\ outs = <<>> /\ hist = <<>>
+        /\ aux = [thr |-> 0, retain |-> 0]
 
 H(x) == IF Emit THEN Append(hist, x) ELSE hist
 Out(x) == IF Emit THEN PrintT("BEH " \o ToJson(x)) ELSE TRUE
@@ -149,23 +164,30 @@ Write(p) ==
      /\ wire' = wire \o Encode(fr, Len(sent) + 1)
      /\ devs' = IF p.k # "HB" /\ fr.hdr = 0 THEN devs \cup {"emptyNoLen"} ELSE devs
   /\ hist' = hist
-  /\ UNCHANGED <<open, pos, rd, decoded, alloc, stalls, outs>>
+  /\ UNCHANGED <<open, pos, rd, decoded, alloc, stalls, outs, aux>>
 
 HostileWrite(fr) ==
-  /\ Mode = "hostile" /\ open /\ sent = <<>>
-  /\ sent' = <<fr>> /\ wire' = Encode(fr, 1) /\ open' = FALSE
-  /\ UNCHANGED <<pos, rd, decoded, alloc, stalls, devs, outs, hist>>
+  /\ Mode = "hostile" /\ open /\ Len(sent) < MaxFrames
+  /\ sent' = Append(sent, fr) /\ wire' = wire \o Encode(fr, Len(sent) + 1)
+  /\ open' = (MaxFrames > 1)                    \* a stream is ended by HostileClose
+  /\ UNCHANGED <<pos, rd, decoded, alloc, stalls, devs, outs, aux, hist>>
+HostileClose == /\ Mode = "hostile" /\ open /\ sent # <<>> /\ open' = FALSE
+                /\ UNCHANGED <<sent, wire, pos, rd, decoded, alloc, stalls, devs, outs, aux, hist>>
 
 CloseStream == /\ Mode = "honest" /\ open /\ sent # <<>> /\ open' = FALSE
-               /\ UNCHANGED <<sent, wire, pos, rd, decoded, alloc, stalls, devs, outs, hist>>
+               /\ UNCHANGED <<sent, wire, pos, rd, decoded, alloc, stalls, devs, outs, aux, hist>>
 
 (* ---------------------------------- reader ------------------------------------------------ *)
-Upd(r, p, d, a, dv, o, h) ==
-  /\ rd' = r /\ pos' = p /\ decoded' = d /\ alloc' = a /\ devs' = dv /\ outs' = o /\ hist' = h
+UpdA(r, p, d, a, dv, o, h, ax) ==
+  /\ rd' = r /\ pos' = p /\ decoded' = d /\ alloc' = a /\ devs' = dv /\ outs' = o /\ hist' = h /\ aux' = ax
   /\ UNCHANGED <<sent, wire, open, stalls>>
+Upd(r, p, d, a, dv, o, h) == UpdA(r, p, d, a, dv, o, h, aux)
 
 Fail(p, dv, h) == Upd([rd EXCEPT !.ph = "Err"], p, decoded, alloc, dv, Append(outs, "Error"), h)
-EmitRead(exp) == Mode = "hostile" => Out([frame |-> sent[1], exp |-> exp])
+EmitRead(exp) == (Mode = "hostile" /\ MaxFrames = 1) => Out([frame |-> sent[1], exp |-> exp])
+\* in hostile mode an error that comes after the packet has been consumed completely (encrypted flag, gunzip,
+\* JSON) is an outcome of THAT call: the stream is still aligned and a caller that reads on must be served
+Consumed(a, dv) == Upd(Idle, pos, decoded, a, dv, Append(outs, "Error"), hist)
 
 \* ReadPacket returns a packet for frame id (n bytes), or garbage if the reader had lost alignment
 Deliver(id, p, a, h) ==
@@ -175,21 +197,25 @@ Deliver(id, p, a, h) ==
 \* readPacketType: one Read of a 1-byte buffer
 ReadType ==
   /\ ~open /\ rd.ph = "Type" /\ Avail > 0
-  /\ LET b == wire[pos + 1]
-         h == H([f |-> "T", n |-> 1]) IN
+  /\ \E t \in (IF Mode = "hostile" THEN Threads ELSE {0}) :      \* the call is made by reader thread t
+     LET b  == wire[pos + 1]
+         h  == IF Mode = "hostile" THEN H([thr |-> t]) ELSE H([f |-> "T", n |-> 1])
+         ax == [aux EXCEPT !.thr = t] IN
      IF b.f # "T"
      THEN Fail(pos + 1, devs, h)                       \* misaligned: a body/length byte read as a type
      ELSE IF sent[b.id].k = "HB"
-     THEN /\ Upd(Idle, pos + 1, Append(decoded, [id |-> b.id, n |-> 1, rej |-> FALSE]), 0, devs, Append(outs, "Packet"), h)
+     THEN /\ UpdA(IF Mode = "hostile" THEN [Idle EXCEPT !.ph = "Dispatch", !.id = b.id] ELSE Idle, pos + 1,
+                  Append(decoded, [id |-> b.id, n |-> 1, rej |-> FALSE]), 0, devs, Append(outs, "Packet"), h, ax)
           /\ EmitRead("Packet")
-     ELSE Upd([ph |-> "Len", id |-> b.id, got |-> 0, need |-> 4, bad |-> FALSE, start |-> pos],
-              pos + 1, decoded, 0, devs, outs, h)
+     ELSE UpdA([ph |-> "Len", id |-> b.id, got |-> 0, need |-> 4, bad |-> FALSE, start |-> pos],
+               pos + 1, decoded, 0, devs, outs, h, ax)
 
 \* end of stream exactly on a packet boundary: io.EOF, the read loop ends
 ReadEof ==
   /\ ~open /\ rd.ph = "Type" /\ Avail = 0
   /\ Upd([rd EXCEPT !.ph = "Eof"], pos, decoded, alloc, devs, Append(outs, "Eof"), hist)
   /\ (Mode = "honest" => Out([pkts |-> [i \in 1..Len(sent) |-> Pk(sent[i])], reads |-> hist]))
+  /\ ((Mode = "hostile" /\ MaxFrames > 1) => Out([frames |-> sent, calls |-> hist]))
 
 \* after the length field is complete: readPacketBody's limit check and pool allocation
 AfterLen(p, bad, h) ==
@@ -234,7 +260,7 @@ Stall ==
      THEN /\ rd' = [rd EXCEPT !.ph = "Err"] /\ devs' = devs \cup {"shortHeader"}
           /\ outs' = Append(outs, "Error") /\ hist' = h /\ EmitRead("Error")
      ELSE /\ hist' = h /\ UNCHANGED <<rd, devs, outs>>
-  /\ UNCHANGED <<sent, wire, open, pos, decoded, alloc>>
+  /\ UNCHANGED <<sent, wire, open, pos, decoded, alloc, aux>>
 
 \* after the body: encrypted? -> decompressData -> json.Unmarshal for command kinds
 \* inflate ledger: bytes.Buffer pre-allocated min(3*len, MAX), then doubling while output arrives
@@ -252,7 +278,7 @@ Post ==
   /\ LET fr == sent[rd.id] IN
      IF rd.bad THEN Deliver(0, pos, alloc, hist)                    \* misaligned garbage handed out as a packet
      ELSE IF fr.e THEN (IF Mode = "honest" THEN Reject(alloc, devs)      \* encryption not supported here: an error for
-                        ELSE Fail(pos, devs, hist) /\ EmitRead("Error"))   \* THIS packet, all of its bytes consumed
+                        ELSE Consumed(alloc, devs) /\ EmitRead("Error"))  \* THIS packet, all of its bytes consumed
      ELSE LET capped == "unboundedInflate" \notin Dev
               a1   == IF fr.z THEN alloc + Inflate(fr, capped) ELSE alloc
               zerr == fr.z /\ (fr.gz \in {"corrupt", "trunc", "na"} \/ fr.nb = 0 \/ (fr.gz \in Bombs /\ capped))
@@ -261,35 +287,40 @@ Post ==
               jerr == fr.k \in {"CMD", "RESP"} /\ fr.pay \in NotACommand /\ Mode = "hostile"   \* json.Unmarshal into CommandPacket
           IN IF Mode = "honest" /\ zerr THEN Reject(a2, dv)   \* gunzip of a body that is not gzip: same - the caller may read on
              ELSE IF zerr \/ jerr
-             THEN Upd([rd EXCEPT !.ph = "Err"], pos, decoded, a2, dv, Append(outs, "Error"), hist) /\ EmitRead("Error")
+             THEN Consumed(a2, dv) /\ EmitRead("Error")
              ELSE /\ Upd(IF Mode = "hostile" THEN [rd EXCEPT !.ph = "Dispatch"] ELSE Idle, pos,
                          Append(decoded, [id |-> rd.id, n |-> pos - rd.start, rej |-> FALSE]), a2, dv, Append(outs, "Packet"), hist)
                   /\ EmitRead("Packet")
 
-\* SessionManager.HandlePacket on a fresh connection; afterwards the read loop goes on
-Dispatch ==
+\* SessionManager.HandlePacket on a fresh connection, in two steps: the dispatcher registers the request
+\* (pending-request table of the command executor, per-connection control structures) ...
+DispatchBegin ==
   /\ Mode = "hostile" /\ rd.ph = "Dispatch"
-  /\ \E o \in (CASE sent[rd.id].k \in {"PAY", "UNK"} -> {"Error"}      \* unhandled packet type
+  /\ UpdA([rd EXCEPT !.ph = "Handling"], pos, decoded, alloc, devs, outs, hist, [aux EXCEPT !.retain = @ + 1])
+\* ... and when the handler has answered - reply or refusal alike - releases what it registered; afterwards the
+\* read loop goes on (a heartbeat is dispatched too and never fails; unassigned types are refused)
+Dispatch ==
+  /\ Mode = "hostile" /\ rd.ph = "Handling"
+  /\ \E o \in (CASE sent[rd.id].k \in {"PAY", "UNK"} -> {"Error"}
+                 [] sent[rd.id].k = "HB" -> {"Reply"}
                  [] OTHER -> {"Reply", "Error"}) :
-       Upd(Idle, pos, decoded, alloc, devs, Append(outs, o), hist)
-\* a heartbeat is dispatched too (handleHeartbeat never fails)
-DispatchHB ==
-  /\ Mode = "hostile" /\ rd.ph = "Type" /\ outs # <<>> /\ outs[Len(outs)] = "Packet"
-  /\ Upd(rd, pos, decoded, alloc, devs, Append(outs, "Reply"), hist)
+       UpdA(Idle, pos, decoded, alloc, devs, Append(outs, o), hist, [aux EXCEPT !.retain = @ - 1])
 
 Next == \/ (Mode = "honest" /\ open /\ \E p \in HonestPkts : Write(p))
-        \/ (Mode = "hostile" /\ open /\ \E fr \in HostileFrames : HostileWrite(fr))
-        \/ CloseStream
-        \/ (IF Mode = "hostile" /\ rd.ph = "Type" /\ outs # <<>> /\ outs[Len(outs)] = "Packet"
-            THEN DispatchHB ELSE (ReadType \/ ReadEof))
+        \/ (Mode = "hostile" /\ open /\ \E fr \in (IF MaxFrames = 1 THEN HostileFrames ELSE StreamFrames) : HostileWrite(fr))
+        \/ CloseStream \/ (MaxFrames > 1 /\ HostileClose)
+        \/ ReadType \/ ReadEof
         \/ \E n \in 1..4 : ReadLen(n)
         \/ \E n \in 1..(MaxLen + 2) : ReadBody(n)
-        \/ ReadTrunc \/ Stall \/ Post \/ Dispatch
+        \/ ReadTrunc \/ Stall \/ Post \/ DispatchBegin \/ Dispatch
 
 Spec == Init /\ [][Next]_vars /\ WF_vars(Next)
 
 (* ---------------------------------- properties -------------------------------------------- *)
 Terminal == rd.ph \in {"Eof", "Err"}
+\* C05, dispatcher side: nothing stays registered once a packet has been handled - whatever the answer was -
+\* so that no number of refused packets can make the server retain memory
+RetainBound == aux.retain <= 1 /\ (rd.ph \notin {"Handling"} => aux.retain = 0)
 OK(P) == P \/ devs # {}            \* one flagged deviation must not mask the other routes: checked per cfg
 
 TypeOK == /\ pos \in 0..Len(wire) /\ alloc \in Nat /\ devs \subseteq Dev
